@@ -64,7 +64,7 @@ QUICK_A = [
     [("tweak", "const"), ("oprobe", "cond")], [("oprobe", "cond"), ("probe", None)],
 ]
 QUICK_B = [
-    [("tweak", "const")], [("rewrite", "plus")], [("rewrite", "ctx")],
+    [("tweak", "const")], [("tweak2", "const")], [("rewrite", "plus")], [("rewrite", "ctx")],
     [("tweak", "const"), ("rewrite", "plus")], [("rewrite", "plus"), ("tweak", "const")],
     [("tap", None), ("rewrite", "plus")],
 ]
@@ -89,7 +89,7 @@ def stacks(tier):
         [("oprobe", "cond"), ("tweak", "const"), ("oprobe", "cond")],
     ]
     out += [("A", t) for t in triples]
-    kb = [("tweak", "const"), ("rewrite", "plus"), ("rewrite", "ctx"), ("tap", None)]
+    kb = [("tweak", "const"), ("tweak2", "const"), ("rewrite", "plus"), ("rewrite", "ctx"), ("tap", None)]
     for n in (1, 2):
         for s in itertools.product(kb, repeat=n):
             if any(o for _, o in s):
@@ -109,7 +109,7 @@ def program_sets(tier):
 
 
 def units(tier):
-    out = []
+    out = [("paths", i) for i in range(len(PATH_PAIRS))]
     for name, kw in program_sets(tier):
         n = C.count_programs(tier, **kw)
         out += [(name, lo, min(n, lo + CHUNK)) for lo in range(0, n, CHUNK)]
@@ -231,6 +231,14 @@ def instrumented(prog, info, v, w, route, stack, x, driver, part):
                 ol = Overlay.tweaking({select(text, env=env): OVR[o]({}, v, w)})
                 ol.__enter__()
                 active.append(ol)
+            elif kind == "tweak2":
+                # one tweaking() call with two entries: the second one carries a value condition that
+                # never holds (x is never -12345), so only the first value may ever be applied
+                # (tooled route only: the condition needs x to be instrumented)
+                never = select(text.replace("f(", "f(x=-12345, ", 1) if "f(" in text else text.replace("f >", "f(x=-12345) >", 1), env=env)
+                ol = Overlay.tweaking({select(text, env=env): OVR[o]({}, v, w), never: 555})
+                ol.__enter__()
+                active.append(ol)
             elif kind == "rewrite":
                 ol = Overlay.rewriting({select(text, env=env): wrap(o)})
                 ol.__enter__()
@@ -329,6 +337,94 @@ def check_closure(prog, info, part):
     return None
 
 
+# ------------------------------------------------------------------ precedence across call paths (E2 world)
+# (older selector, newer selector): both override the same binding, reached through paths of different length
+PATH_PAIRS = [
+    ("A > B > p", "B > p"), ("B > p", "A > B > p"), ("A > A > B > p", "A > B > p"), ("A > B > p", "A > A > B > p"),
+    ("A > B > q", "B(p) > q"), ("A(p) > B > q", "B > q"), ("A > p", "A > A > p"), ("A > A > p", "A > p"),
+    ("A > B > p", "C > B > p"), ("B > p", "B > p"),
+]
+
+
+def check_paths(idx, tier, part):
+    """Two overriding probes on the same focus variable, selected through different call paths: the
+    most recently activated one whose path matches wins, on every call tree with <= 4 nodes."""
+    from ptera import probing
+    from pv.explore import calltree as CT
+    from pv.models import rss as R
+    from pv.props import e2common as E
+
+    old_text, new_text = PATH_PAIRS[idx]
+
+    def ir(text):
+        parts = [t.strip() for t in text.split(">")]
+        fvar = parts[-1]
+        call = None
+        labels = parts[:-1]
+        for lvl in reversed(range(len(labels))):
+            lab = labels[lvl]
+            caps = []
+            if "(" in lab:
+                lab, rest = lab.split("(")
+                caps.append(R.cap(rest.rstrip(")"), rest.rstrip(")") + str(lvl)))
+            if lvl == len(labels) - 1:
+                caps.append(R.cap(fvar, fvar, focus=True))
+            call = R.SCall(lab, tuple(caps), (call,) if call else ())
+        return call, labels[-1].split("(")[0], fvar
+
+    old_ir, ffn, fvar = ir(old_text)
+    new_ir, ffn2, fvar2 = ir(new_text)
+    assert (ffn, fvar) == (ffn2, fvar2)
+    tw = E.tree_world()
+    env = dict(tw.funcs)
+    plain = []
+    active = []
+    try:
+        p_old = probing(R.render(old_ir), env=env, overridable=True)
+        p_old.override(1111)
+        p_old.__enter__()
+        active.append(p_old)
+        p_new = probing(R.render(new_ir), env=env, overridable=True)
+        p_new.override(2222)
+        p_new.__enter__()
+        active.append(p_new)
+        p3 = probing(f"{ffn} > {fvar}", env=env)
+        p3.subscribe(lambda ev: plain.append(ev[fvar]))
+        p3.__enter__()
+        active.append(p3)
+        for tree in CT.trees(4 if tier == "quick" else 5):
+            del plain[:]
+            trace = tw.run(tree)
+            E.check_static(tree, trace)
+            part["cases"] += 1
+            part["evaluations"] += 1
+            part["steps"] += len(trace)
+            hit_old = {(t, a) for t, a, e in R.immediate(trace, old_ir)}
+            hit_new = {(t, a) for t, a, e in R.immediate(trace, new_ir)}
+            want = []
+            ix = R.Index(trace)
+            for t, ev in enumerate(trace):
+                if ev[0] == "bind" and ev[2] == fvar and ix.label[ev[1]] == ffn:
+                    want.append(2222 if (t, ev[1]) in hit_new else 1111 if (t, ev[1]) in hit_old else ev[3])
+            if hit_old & hit_new:
+                part["nontrivial"] += 1
+            part["outcomes"][f"paths:{bool(hit_old)}:{bool(hit_new)}:{bool(hit_old & hit_new)}"] += 1
+            if want != plain:
+                part["violations"].append(violation(
+                    PROP, "path-precedence", {"paths": [old_text, new_text], "tree_repr": repr(tree)},
+                    f"overrides {old_text} := 1111 (activated first) and {new_text} := 2222 on {CT.describe(tree)}: "
+                    f"a plain probe should see {want!r}, saw {plain!r}", tags=["paths"]))
+    finally:
+        for a in reversed(active):
+            try:
+                a.__exit__(None, None, None)
+            except BaseException:
+                pass
+    E.ensure_clean(tw)
+    if not part["samples"]:
+        part["samples"].append({"older": old_text, "newer": new_text})
+
+
 def check_program(prog, tier, part, setname="gen"):
     info = C.analyse(prog)
     if info is None:
@@ -358,6 +454,9 @@ def check_program(prog, tier, part, setname="gen"):
 
 def work(unit, tier):
     part = new_partial()
+    if unit[0] == "paths":
+        check_paths(unit[1], tier, part)
+        return part
     name, lo, hi = unit
     kw = dict(program_sets(tier))[name]
     for prog in C.programs_slice(tier, lo, hi, **kw):
@@ -366,6 +465,11 @@ def work(unit, tier):
 
 
 def replay(case):
+    if "paths" in case:
+        part = new_partial()
+        check_paths(PATH_PAIRS.index(tuple(case["paths"])), "quick", part)
+        bad = [v for v in part["violations"] if v["case"]["tree_repr"] == case["tree_repr"]]
+        return (True, bad[0]["detail"]) if bad else (False, "the most recently activated matching override wins")
     prog = M.Prog(case["src"], tuple(case["forms"]), C.flags_of(case["src"]), 0)
     info = C.analyse(prog)
     part = new_partial()
